@@ -9,7 +9,7 @@ from harness.runner import Check, offline_case, need_vars, expect_vals
 class C16(Check):
     PID = 'C16'
     RULE = ('seeded random formulas without unbounded future (all other operators), trace w1 of length n1 and an extension w2; '
-            'offline evaluate() on both; every t with t + hor(phi) < n1 must agree (hor from the model); also impl = model on both traces; '
+            'offline evaluate() on both (15% of the cases with their bounds in unit notations); every t with t + hor(phi) < n1 must agree (hor from the model); also impl = model on both traces; '
             'non-trivial = formula with >= 3 nodes and a non-empty settled region; distinct by (formula, w1, w2)')
 
     def gen_cases(self, rng, tier):
@@ -35,8 +35,20 @@ class C16(Check):
                 ext = rng.choice([1, 1, 2, 5, 9])
                 cols2 = fml.gen_trace(rng, nv, n1 + ext)
                 cols1 = [c[:n1] for c in cols2]
-                cases.append({'f': f, 'n': n1, 'n2': n1 + ext, 'nv': nv, 'cols': cols1, 'cols2': cols2, 'times': list(range(n1))})
+                c = {'f': f, 'n': n1, 'n2': n1 + ext, 'nv': nv, 'cols': cols1, 'cols2': cols2, 'times': list(range(n1))}
+                if rng.random() < 0.15:
+                    # the bounds in another unit notation (explicit units on either or both ends, another default unit, the period in another unit)
+                    from harness.c08 import spelling
+                    sp = spelling(rng, f)
+                    if sp:
+                        c['spell'] = sp
+                cases.append(c)
         return cases
+
+    def normalize(self, c):
+        if 'spell' in c and fml.to_sx(c['f']) != c['spell'].get('fkey'):
+            c = {k: v for k, v in c.items() if k != 'spell'}
+        return c
 
     def model_lines(self, c):
         return ['(info %s)' % fml.to_sx(c['f']),
@@ -47,8 +59,9 @@ class C16(Check):
         # the extension keeps the first n values of every column; a shrunk case may have cut cols only
         cols2 = [list(c['cols'][i]) + list(c['cols2'][i][len(c['cols'][i]):]) if len(c['cols2'][i]) >= len(c['cols'][i]) else list(c['cols'][i]) for i in range(c['nv'])]
         n2 = len(cols2[0])
-        return [offline_case(c['f'], c['cols'], list(range(c['n'])), c['nv']),
-                offline_case(c['f'], cols2, list(range(n2)), c['nv'])]
+        sp = {k: v for k, v in c.get('spell', {}).items() if k != 'fkey'}
+        return [offline_case(c['f'], c['cols'], list(range(c['n'])), c['nv'], **sp),
+                offline_case(c['f'], cols2, list(range(n2)), c['nv'], **sp)]
 
     def judge(self, c, mlines, ires):
         info = parse_fields(mlines[0])
@@ -88,7 +101,7 @@ class C16(Check):
         return json.dumps([fml.to_sx(c['f']), c['cols'], c['cols2']])
 
     def describe(self, c):
-        return {'spec': 'out = ' + fml.to_text(c['f']), 'w1': c['cols'], 'w2': c['cols2']}
+        return {'spec': c.get('spell', {}).get('spec', 'out = ' + fml.to_text(c['f'])), 'w1': c['cols'], 'w2': c['cols2']}
 
 
 def main(tier, seed, replay=None):
